@@ -9,7 +9,7 @@
    consumed (POSTCONDITION AllConsumed); each event's verdict (ok / skip / a
    diagnosis) goes to the verdict file, so that one rejected event never hides
    the rest of the trace. *)
-EXTENDS SemOverflow, AsCodedOverflow, SemScaled, SemRounding, AsCodedRounding, SemElastic, SemBits, SemSqrt, SemFraction, SemWide, SemText, TLC, TLCExt, Json, IOUtils, CSV
+EXTENDS SemOverflow, AsCodedOverflow, SemScaled, SemRounding, AsCodedRounding, SemElastic, SemBits, SemSqrt, SemFraction, SemWide, SemText, SemNative, TLC, TLCExt, Json, IOUtils, CSV
 
 Tr == ndJsonDeserialize(IOEnv.TRACE)
 Insts == ndJsonDeserialize(IOEnv.INSTS)
@@ -54,6 +54,11 @@ Verdict0(e, i) ==
       [] e.e = "WText" -> JudgeWText(e, i)
       [] e.e = "Tc" -> JudgeTc(e, i)
       [] e.e = "TcStatic" -> JudgeTcStatic(e, i)
+      [] e.e = "NtBin" -> JudgeNtBin(e, i)
+      [] e.e = "NtCmp" -> JudgeNtCmp(e, i)
+      [] e.e = "NtUn" -> JudgeNtUn(e, i)
+      [] e.e = "NtAssign" -> JudgeNtAssign(e, i)
+      [] e.e = "NtKernel" -> JudgeNtKernel(e, i)
       [] e.e = "RDiv" -> JudgeRDiv(e, i)
       [] e.e = "ROp" -> JudgeROp(e, i)
       [] e.e = "RConv" -> JudgeRConv(e, i)
